@@ -155,7 +155,8 @@ class _Rewriter(ast.NodeTransformer):
         self.counts["loops"] += 1
         self.uid += 1
         lp = f"_pyvc_lp{self.uid}"
-        assigned = sorted(_assigned_names(node.body) | (_target_names(node.target) if isinstance(node, ast.For) else set()))
+        assigned = sorted(_assigned_names(node.body) | (_target_names(node.target) if isinstance(node, ast.For) else set())
+                          | set(getattr(spec, "types", None) or ()))     # locals only mutated in place: havoc'd when typed
         key = ast.Constant((self.relpath, q, k))
         locs = ast.Call(ast.Name("locals", ast.Load()), [], [])
 
